@@ -262,7 +262,52 @@ fn one_c01(prop: &str, c: &Case, rep: &mut Report) {
     }
 }
 
+/// Leg `qhull`: run C01 on general-position inputs and export the reference and implementation results for the
+/// Qhull cross-check (pyref/qhull_check.py).
+fn c01_qhull_export(a: &Args, rep: &mut Report) {
+    use vcore::refcell::Key;
+    let out = a.out_dir.clone().unwrap_or_else(|| a.verif_dir.clone()).join("evidence").join("legs");
+    let _ = std::fs::create_dir_all(&out);
+    let n = ncases(a, 60, 400);
+    let slots: Vec<std::sync::Mutex<Option<serde_json::Value>>> = (0..n).map(|_| std::sync::Mutex::new(None)).collect();
+    run_parallel(rep, n, 600., |k, rep| {
+        let o = GenOpts {
+            sizes: &[2, 3, 5, 8, 13, 27, 40],
+            families: &["uniform", "uniform", "mildcluster", "tiny"],
+            dims: &[3, 3, 2],
+            mild_box: true,
+            ..Default::default()
+        };
+        let c = gen_case("C01qhull", &a.tier, a.seed, k, &o);
+        one_c01("C01", &c, rep);
+        let Ok(b) = build_observed(&c, 0, 0) else { return };
+        let rd = geom::reference(&c);
+        let (an, wn) = c.norm_box();
+        let cells: Vec<serde_json::Value> = (0..c.n())
+            .filter_map(|i| {
+                let rs = rd.sums[i].as_ref()?;
+                let faces: serde_json::Map<String, serde_json::Value> = rs
+                    .faces
+                    .iter()
+                    .filter_map(|(k, f)| match k {
+                        Key::Gen(j, sh) if f.area > 0. => Some((format!("{j}:{},{},{}", sh[0], sh[1], sh[2]), json!(f.area))),
+                        _ => None,
+                    })
+                    .collect();
+                Some(json!({"idx": i, "ref_volume": rs.volume, "impl_volume": b.v.cells()[i].volume(), "ref_faces": faces}))
+            })
+            .collect();
+        *slots[k as usize].lock().unwrap() = Some(json!({"origin": c.origin, "dim": c.dim, "periodic": c.periodic, "anchor": [an.x, an.y, an.z], "width": [wn.x, wn.y, wn.z],
+            "pts": c.proj_pts().iter().map(|p| vec![p.x, p.y, p.z]).collect::<Vec<_>>(), "cells": cells}));
+    });
+    let cases: Vec<serde_json::Value> = slots.into_iter().filter_map(|m| m.into_inner().unwrap()).collect();
+    std::fs::write(out.join("C01.qhull_export.json"), serde_json::to_string(&json!({"cases": cases})).unwrap()).expect("write export");
+}
+
 fn c01(a: &Args, rep: &mut Report) {
+    if a.leg.as_deref() == Some("qhull") {
+        return c01_qhull_export(a, rep);
+    }
     rep.rule = "cases = seeded inputs of the conditioned families (uniform, lattice, centred lattice, boundary lattice, coplanar/collinear, mild cluster, tiny) x dimensionality x periodic flag x box shape/scale/offset; distinct = distinct input hash; non-trivial = at least 2 generators (so at least one bisector is compared with the brute-force reference)".into();
     rep.assumptions = vec![
         "the brute-force reference clipper (vcore::refcell) is itself correct; it is cross-checked against closed forms and (thorough) Qhull".into(),
